@@ -195,23 +195,26 @@ theorem complete_calls_gen {s : Simp} (hs : SimpSound s) {o : Oracle} (ho : Orac
     (hmem : cfg.maxMem + 32 ≤ p.memLimit) (hdep : 1024 ≤ p.maxDepth)
     (hcodes : ∀ a, w.codeOf a = codeOf codes a)
     (hcb : ∀ a prog, codeOf codes a = some prog → ∀ b ∈ prog, b < 256)
-    (hz : ∀ a, SS a → C01.ZeroStorage w a) (hch : CreateHyp cfg p SS w) (hnh : cfg.hsto = false)
+    (hz : ∀ a, SS a → C01.ZeroStorage w a) (hch : CreateHyp cfg p SS w)
     (I : Interp) (hI : I.Std) (hbal : cfg.balances = true → BalHyp I cfg w)
     (hbound : cfg.balances = true → BalBound w) (hsha : cfg.sha3 = true → ShaInterp I p cfg)
-    (hshaok : ∀ cs, VisitedC s o cfg codes (initC env codes this) cs → ShaOK I s cfg cs) (f0 : Evm.Frame)
+    (hoh : cfg.hsto = true → cfg.sha3 = true ∧ HEmptyZero I)
+    (hshaok : ∀ cs, VisitedC s o cfg codes (initC env codes this) cs → ShaOK I s cfg cs)
+    (hhs : ∀ cs, VisitedC s o cfg codes (initC env codes this) cs → Sat I cs.st.path → HstoOK I p s cfg cs)
+    (f0 : Evm.Frame)
     (hR0 : R I env ((codeOf codes this).getD []) p initState f0) (hthis : f0.this = this) (hd0 : f0.depth = 0)
     (n : Nat) (w' : Evm.World) (h : Evm.Halt) (hex : Evm.exec p n w f0 = some (w', h)) :
     (∃ ce ∈ (runC s o cfg env codes this fuel).ends, Sat I ce.e.st.path ∧
         ((∃ h0, ce.e.out = .halt h0 ∧ haltWith h0 (ce.e.data.map (·.eval I)) = h ∧ ce.e.tag = .normal ∧
             WRelM I SS (wd w ce.created ce.nonce) w' (stoOf ce.stores) (evalLogs I ce.logs)
               (balSem I w ce.bal) ∧
-            (∀ b ∈ ce.e.data, b.WF ∧ b.width = 8)) ∨
+            (∀ b ∈ ce.e.data, b.WF ∧ b.width = 8) ∧ HRel I p SS w' ce.hsto) ∨
          (∃ r, ce.e.out = .stuck r) ∨ ce.e.tag ≠ .normal)) ∨
     (runC s o cfg env codes this fuel).boundedLoops ≠ [] ∨
     (runC s o cfg env codes this fuel).depthCut = true ∨
     (runC s o cfg env codes this fuel).outOfFuel = true :=
   exploreC_complete (cfg := cfg) (codes := codes) (S := SS) (r := (w', h)) hs ho hmem hdep hcodes
-    hSc hcb hI hbal hsha hch hnh hshaok fuel 0 [initC env codes this] {}
+    hSc hcb hI hbal hsha hch hoh hshaok hhs fuel 0 [initC env codes this] {}
     (fun cs hm => by rw [List.mem_singleton.1 hm]; exact .start)
     ⟨initC env codes this, List.mem_singleton.2 rfl, Sat.nil I, w, f0, [], relC_init hR0 hthis hd0 hcb hS0 hz, ⟨n, hex⟩,
       fun hC => ⟨hbound hC, fun kc hm => absurd hm List.not_mem_nil⟩⟩
@@ -238,13 +241,14 @@ theorem complete_calls {s : Simp} (hs : SimpSound s) {o : Oracle} (ho : OracleSo
     (runC s o cfg env codes this fuel).depthCut = true ∨
     (runC s o cfg env codes this fuel).outOfFuel = true := by
   rcases complete_calls_gen hs ho cfg env codes this fuel p w (Modelled codes this) (Or.inl rfl)
-    (fun _ _ h => modelled_of_code h) hmem hdep hcodes hcb hz (CreateHyp.off hnc) hnh I hI hbal hbound hsha hshaok f0 hR0
+    (fun _ _ h => modelled_of_code h) hmem hdep hcodes hcb hz (CreateHyp.off hnc) I hI hbal hbound hsha
+    (fun h' => by rw [hnh] at h'; cases h') hshaok (fun _ _ _ => hstoOK_off hnh) f0 hR0
     hthis hd0 n w' h hex with ⟨ce, hm, hsat, hc⟩ | hr
   · refine Or.inl ⟨ce, hm, hsat, ?_⟩
     rcases hc with ⟨h0, a1, a2, a3, hW, a5⟩ | hc
     · obtain ⟨hc0, hn0⟩ := runC_noCr hnc ce hm
       rw [hc0, hn0, wd_zero] at hW
-      exact Or.inl ⟨h0, a1, a2, a3, hW, a5⟩
+      exact Or.inl ⟨h0, a1, a2, a3, hW, a5.1⟩
     · exact Or.inr hc
   · exact Or.inr hr
 
@@ -272,10 +276,52 @@ theorem complete_calls_create {s : Simp} (hs : SimpSound s) {o : Oracle} (ho : O
          (∃ r, ce.e.out = .stuck r) ∨ ce.e.tag ≠ .normal)) ∨
     (runC s o cfg env codes this fuel).boundedLoops ≠ [] ∨
     (runC s o cfg env codes this fuel).depthCut = true ∨
-    (runC s o cfg env codes this fuel).outOfFuel = true :=
-  complete_calls_gen hs ho cfg env codes this fuel p w (ModelledC cfg codes this) (Or.inl (Or.inl rfl))
+    (runC s o cfg env codes this fuel).outOfFuel = true := by
+  rcases complete_calls_gen hs ho cfg env codes this fuel p w (ModelledC cfg codes this) (Or.inl (Or.inl rfl))
     (fun _ _ h => Or.inl (modelled_of_code h)) hmem hdep hcodes hcb hz
-    (fun hc => ⟨hal, fun n => Or.inr ⟨hc, n, rfl⟩, hbw⟩) hnh I hI hbal hbound hsha hshaok f0 hR0 hthis hd0 n w' h hex
+    (fun hc => ⟨hal, fun n => Or.inr ⟨hc, n, rfl⟩, hbw⟩) I hI hbal hbound hsha
+    (fun h' => by rw [hnh] at h'; cases h') hshaok (fun _ _ _ => hstoOK_off hnh) f0 hR0 hthis hd0 n w' h hex with
+    ⟨ce, hm, hsat, hc⟩ | hr
+  · refine Or.inl ⟨ce, hm, hsat, ?_⟩
+    rcases hc with ⟨h0, a1, a2, a3, hW, a5⟩ | hc
+    · exact Or.inl ⟨h0, a1, a2, a3, hW, a5.1⟩
+    · exact Or.inr hc
+  · exact Or.inr hr
+
+/-- **C02.complete_calls_hsto.** The same with SLOAD / SSTORE at mapping and dynamic-array locations followed
+    (`cfg.hsto` on, with the SHA3 layer, `hs3`; CREATE on or off — `hch`, `SS` as in `complete_calls_gen`). The covering
+    end now also describes the hashed cells of the final world (`HRel I p SS w' ce.hsto`, as in `C01.sound_calls_hsto`).
+    `hez`: the valuation reads the arrays of the empty storage as zero (`HEmptyZero` — the condition
+    `SolidityStorage.load` appends for every key loaded, the counterpart of `hz` for the start world: a valuation under
+    which an untouched cell is non-zero describes no run from zero storage); `hhs`: the two assumptions on Keccak-256
+    at the states visited, as in `C01.sound_calls_hsto` (the location is not a plain slot; no collision between the
+    cells met). -/
+theorem complete_calls_hsto {s : Simp} (hs : SimpSound s) {o : Oracle} (ho : OracleSound o) (cfg : Cfg)
+    (hs3 : cfg.sha3 = true) (env : Env)
+    (codes : List (Nat × List Nat)) (this : Nat) (fuel : Nat) (p : Evm.Params) (w : Evm.World)
+    (SS : Nat → Prop) (hS0 : SS this) (hSc : ∀ a prog, codeOf codes a = some prog → SS a)
+    (hmem : cfg.maxMem + 32 ≤ p.memLimit) (hdep : 1024 ≤ p.maxDepth)
+    (hcodes : ∀ a, w.codeOf a = codeOf codes a)
+    (hcb : ∀ a prog, codeOf codes a = some prog → ∀ b ∈ prog, b < 256)
+    (hz : ∀ a, SS a → C01.ZeroStorage w a) (hch : CreateHyp cfg p SS w)
+    (I : Interp) (hI : I.Std) (hbal : cfg.balances = true → BalHyp I cfg w)
+    (hbound : cfg.balances = true → BalBound w) (hsha : ShaInterp I p cfg) (hez : HEmptyZero I)
+    (hshaok : ∀ cs, VisitedC s o cfg codes (initC env codes this) cs → ShaOK I s cfg cs)
+    (hhs : ∀ cs, VisitedC s o cfg codes (initC env codes this) cs → Sat I cs.st.path → HstoOK I p s cfg cs)
+    (f0 : Evm.Frame)
+    (hR0 : R I env ((codeOf codes this).getD []) p initState f0) (hthis : f0.this = this) (hd0 : f0.depth = 0)
+    (n : Nat) (w' : Evm.World) (h : Evm.Halt) (hex : Evm.exec p n w f0 = some (w', h)) :
+    (∃ ce ∈ (runC s o cfg env codes this fuel).ends, Sat I ce.e.st.path ∧
+        ((∃ h0, ce.e.out = .halt h0 ∧ haltWith h0 (ce.e.data.map (·.eval I)) = h ∧ ce.e.tag = .normal ∧
+            WRelM I SS (wd w ce.created ce.nonce) w' (stoOf ce.stores) (evalLogs I ce.logs)
+              (balSem I w ce.bal) ∧
+            (∀ b ∈ ce.e.data, b.WF ∧ b.width = 8) ∧ HRel I p SS w' ce.hsto) ∨
+         (∃ r, ce.e.out = .stuck r) ∨ ce.e.tag ≠ .normal)) ∨
+    (runC s o cfg env codes this fuel).boundedLoops ≠ [] ∨
+    (runC s o cfg env codes this fuel).depthCut = true ∨
+    (runC s o cfg env codes this fuel).outOfFuel = true :=
+  complete_calls_gen hs ho cfg env codes this fuel p w SS hS0 hSc hmem hdep hcodes hcb hz hch I hI hbal hbound
+    (fun _ => hsha) (fun _ => ⟨hs3, hez⟩) hshaok hhs f0 hR0 hthis hd0 n w' h hex
 
 /-- `complete_calls` on the caller / callee pair of Props.C01: the reference EVM returns the callee's 32 bytes; no
     flag is raised in that run and its only end is an untagged halt, so it must be the reporting one -/
